@@ -61,7 +61,7 @@ func (h *hashRanges) addElement(elHash uint64) {
 		rng.elements++
 	}
 	h.dirty[rng] = struct{}{}
-	if rng.elements > h.compareThreshold {
+	if rng.elements > h.compareThreshold && canDivide(rng.from, rng.to, h.divideFactor) {
 		rng.isDivided = true
 		h.makeBottomRanges(rng)
 	}
@@ -160,7 +160,7 @@ func (h *hashRanges) makeBottomRanges(rng *hashRange) {
 	for _, tuple := range ranges {
 		newRange := h.makeRange(tuple, rng)
 		h.ranges[tuple] = newRange
-		if newRange.elements > h.compareThreshold {
+		if newRange.elements > h.compareThreshold && canDivide(newRange.from, newRange.to, h.divideFactor) {
 			if _, ok := h.dirty[rng]; ok {
 				delete(h.dirty, rng)
 			}
@@ -195,6 +195,13 @@ func (h *hashRanges) calcDividedHash(rng *hashRange) (hash []byte) {
 	}
 	hash = hasher.Sum(nil)
 	return
+}
+
+// canDivide reports whether the range is wide enough for divideFactor non-empty sub-ranges.
+// Narrower ranges (reachable only with colliding or adjacent element hashes) stay undivided
+// whatever their element count is, otherwise the division would never end.
+func canDivide(from, to uint64, divideFactor int) bool {
+	return to-from >= uint64(divideFactor)-1
 }
 
 func genTupleRanges(from, to uint64, divideFactor int) (prepare []rangeTuple) {
